@@ -251,6 +251,9 @@ func runIn(in PipeIn, dir string) Result {
 	return RunDir(in.Cfg, in.Sources, dir)
 }
 
+// Dedup removes repeated strings, keeping the first occurrence.
+func Dedup(xs []string) []string { return dedup(xs) }
+
 func dedup(xs []string) []string {
 	seen := map[string]bool{}
 	var out []string
